@@ -38,22 +38,28 @@ def methodJson (m : Method) : Json :=
                               ("op", jstr (if r.stride < 0 then "-" else "+")),
                               ("stride_abs", jstr (toString r.stride.natAbs))])]
 
-/-- The items of the blocking `read_all_registers` (block_transform.rs:51-95). -/
-def readAllJson (ms : List Method) : List Json :=
+/-- Whether `read_all_registers` reads this accessor: registers whose access includes reading. -/
+def Method.readAllReads (m : Method) : Bool :=
+  match m.kind, m.access with
+  | .register, some a => a.readable
+  | _, _ => false
+
+/-- The reads of the blocking `read_all_registers` (block_transform.rs:51-95), in order:
+    (accessor, index). -/
+def readAllVisits (ms : List Method) : List (Method × Nat) :=
   ms.flatMap fun m =>
-    match m.kind, m.access with
-    | .register, some a =>
-      if a.readable then
-        let (count, stride, indexed) : Nat × Int × Bool := match m.repeat_ with
-          | none => (1, 0, false)
-          | some r => (r.count, r.stride, true)
-        (List.range count).map fun i =>
-          Json.mkObj [("method", jstr m.name), ("cfg", jcfg m.cfg),
-            ("index", if indexed then jstr (toString i) else Json.null),
-            ("address", jint m.address), ("stride", jint stride),
-            ("display", jstr (if indexed then s!"{m.name}[{i}]" else m.name))]
-      else []
-    | _, _ => []
+    if m.readAllReads then (List.range m.repTriple.1).map fun i => (m, i) else []
+
+def readAllItem (x : Method × Nat) : Json :=
+  let m := x.1
+  let i := x.2
+  let indexed := m.repTriple.2.2
+  Json.mkObj [("method", jstr m.name), ("cfg", jcfg m.cfg),
+    ("index", if indexed then jstr (toString i) else Json.null),
+    ("address", jint m.address), ("stride", jint m.repTriple.2.1),
+    ("display", jstr (if indexed then s!"{m.name}[{i}]" else m.name))]
+
+def readAllJson (ms : List Method) : List Json := (readAllVisits ms).map readAllItem
 
 def blockJson (b : LBlock) : Json :=
   Json.mkObj [("name", jstr b.name), ("root", Json.bool b.root), ("cfg", jcfg b.cfg),
